@@ -28,6 +28,7 @@ import (
 	"seehuhn.de/go/postscript"
 	"seehuhn.de/go/postscript/funit"
 	"seehuhn.de/go/postscript/pfb"
+	"seehuhn.de/go/postscript/psenc"
 )
 
 // Read reads a Type 1 font from a reader.
@@ -288,11 +289,13 @@ creationDateLoop:
 	}
 
 	for _, seac := range ctx.seacs {
-		if seac.base < 0 || len(encoding) <= seac.base || seac.accent < 0 || len(encoding) <= seac.accent {
+		// bchar and achar are codes of the StandardEncoding vector,
+		// independently of the font's own encoding
+		if seac.base < 0 || seac.base > 255 || seac.accent < 0 || seac.accent > 255 {
 			continue
 		}
-		base := glyphs[encoding[byte(seac.base)]]
-		accent := glyphs[encoding[byte(seac.accent)]]
+		base := glyphs[psenc.StandardEncoding[seac.base]]
+		accent := glyphs[psenc.StandardEncoding[seac.accent]]
 		if base == nil || accent == nil {
 			continue
 		}
